@@ -1,7 +1,7 @@
 #!/bin/bash
 # runs the thorough tier of every property once (development aid; evidence is NOT written: --no-evidence)
 cd "$(dirname "$0")/.." || exit 2
-for p in ${PROPS:-C01 C02 C03 C04 C06 C07 C09 C10 C12 C13 C14 C15 C16 C17 C18 C19 C20}; do
+for p in ${PROPS:-C01 C02 C03 C04 C05 C06 C07 C08 C09 C10 C11 C12 C13 C14 C15 C16 C17 C18 C19 C20}; do
   t0=$(date +%s); out=$(./check $p thorough --no-evidence --jobs ${JOBS:-8} 2>&1); rc=$?
   echo "$p exit=$rc $(( $(date +%s) - t0 ))s | $(echo "$out" | grep -E "^$p thorough" | cut -c1-170)"
   echo "$out" | grep -E "^   |^FAIL|VIOLATION|HARNESS|inconclusive" | cut -c1-260 | head -12
